@@ -29,6 +29,7 @@ const (
 
 type flowInfo struct {
 	kind    int
+	tag     string // structured cases: the class failures of this flow are reported under
 	callTok int    // flowFootnote: the word the footnote call follows
 	inLine  bool   // flowFloat: the float sits inside a line, glued to the words around it
 	rep     string // for flowRepeat: "fixed" | "thead" | "tfoot"
@@ -44,6 +45,7 @@ type General struct {
 	Features map[string]bool
 	// Letters: the marker letter that starts a paragraph styled with ::first-letter -> is the letter floated
 	Letters    map[string]bool
+	BigSpan    bool    // a span with a larger font holds one or two letters that are not a token
 	Footnotes  bool    // float:footnote elements (calls and markers are generated digits)
 	PagesCount bool    // a margin box shows counter(page) "/" counter(pages): every page is made again
 	FFParas    [][]int // the tokens of each paragraph with a floated ::first-letter, in order
@@ -260,9 +262,30 @@ func (g *ggen) spanTable(rows int) {
 	g.feat["span-table"] = true
 }
 
+// positionedNest writes position:relative boxes (z-index auto) nested in each other, the inner ones also
+// creating stacking contexts: all text stays in the normal flow; what is exercised is the painting order
+// (stacking contexts inserted in the middle of their parent's list) — every run drawn exactly once.
+func (g *ggen) positionedNest(depth int) {
+	r := g.r
+	extra := rng.Pick(r, "", "", "opacity:0.5", "z-index:1", "z-index:-1", "overflow:hidden", "transform:translate(0,0)")
+	pos := rng.Pick(r, "relative", "relative", "relative")
+	fmt.Fprintf(&g.buf, `<div style="position:%s;%s">`, pos, extra)
+	g.buf.WriteString(g.tok())
+	n := 1 + r.Intn(3)
+	for i := 0; i < n; i++ {
+		if depth < 3 && r.P(2, 3) {
+			g.positionedNest(depth + 1)
+		} else {
+			fmt.Fprintf(&g.buf, `<div>%s</div>`, g.tok())
+		}
+	}
+	g.buf.WriteString("</div>")
+	g.feat["positioned-nest"] = true
+}
+
 func (g *ggen) item(depth int, allowOOF bool) {
 	r := g.r
-	c := r.Intn(20)
+	c := r.Intn(22)
 	switch {
 	case c <= 4 || depth > 2: // paragraph
 		sp := r.P(1, 4)
@@ -323,6 +346,8 @@ func (g *ggen) item(depth int, allowOOF bool) {
 		g.footnotePara(2+r.Intn(5), 1+r.Intn(3), g.breaks())
 	case c == 19 || (c == 17 && !g.footnotes): // table with spans and tall cells
 		g.spanTable(1 + r.Intn(4))
+	case c == 20 || c == 21: // nested positioned boxes / stacking contexts
+		g.positionedNest(0)
 	case c == 12 || c == 13: // table with header / footer groups
 		g.buf.WriteString(`<table style="border-spacing:0">`)
 		if r.Bool() {
@@ -398,6 +423,49 @@ var (
 	reDigits = regexp.MustCompile(`^[0-9]+\.?$`)
 	rePageOf = regexp.MustCompile(`^[0-9]+/[0-9]+$`)
 )
+
+// GenWaitingFloat builds the structured case "a float waits for the next line while the line is laid out
+// twice": two empty floats (a narrow one, and a wide one below it) leave room for a line of normal
+// height beside the first but not for a taller one; the paragraph's first line holds inline content taller
+// than the strut and a float too wide for the room that is left.
+func GenWaitingFloat(r *rng.R) *General {
+	d, g := newGeneral(r)
+	g.head(160 + 20*r.Intn(4))
+	side := rng.Pick(r, "left", "right")
+	w1 := 40 + 20*r.Intn(2)  // narrow float
+	w2 := 140 + 20*r.Intn(2) // wide float below it
+	big := 30 + 10*r.Intn(2)
+	pre := r.Intn(3)
+	for i := 0; i < pre; i++ {
+		fmt.Fprintf(&g.buf, `<div>%s</div>`, g.tok())
+	}
+	fmt.Fprintf(&g.buf, `<div style="float:%s;width:%dpx;height:20px"></div><div style="float:%s;clear:%s;width:%dpx;height:20px"></div>`, side, w1, side, side, w2)
+	g.buf.WriteString(`<div>`)
+	if r.Bool() {
+		g.buf.WriteString(g.tok() + " ")
+	}
+	fmt.Fprintf(&g.buf, `<span style="font-size:%dpx">%s</span>`, big, string(Tok(g.n + 1)[:1+r.Intn(2)]))
+	// the big span holds only the beginning of a token-sized word: keep it out of the token stream
+	restore, id := g.newFlow(flowFloat)
+	g.doc.Flows[g.cur].tag = "waiting-float"
+	fmt.Fprintf(&g.buf, `<span id="%s" style="float:%s;width:%dpx">`, id, side, 160+20*r.Intn(2))
+	g.lines(1, false)
+	g.buf.WriteString(`</span>`)
+	restore()
+	k := 1 + r.Intn(4)
+	for i := 0; i < k; i++ {
+		g.buf.WriteString(" " + g.tok())
+	}
+	g.buf.WriteString(`</div>`)
+	post := r.Intn(3)
+	for i := 0; i < post; i++ {
+		fmt.Fprintf(&g.buf, `<div>%s</div>`, g.tok())
+	}
+	d.BigSpan = true
+	d.Features["waiting-float"] = true
+	d.HTML = g.buf.String()
+	return d
+}
 
 // tokensOf splits the text of every text box into tokens, per page, in tree order.
 func tokensOf(pages []*bo.PageBox) (perPage [][]int, stray []string) {
@@ -489,10 +557,16 @@ func runGeneral(m *mp.Model, r *rng.R, n int, fonts text.FontConfiguration, out 
 	for i := 0; i < n; i++ {
 		sub := r.Sub()
 		seed := sub.Seed()
-		doc := GenGeneral(sub, i%3)
+		var doc *General
+		if i%10 == 9 {
+			doc = GenWaitingFloat(sub)
+		} else {
+			doc = GenGeneral(sub, i%3)
+		}
 		var pages []*bo.PageBox
 		var rec *render.Rec
-		draw := i%4 == 0
+		// the draw trace is judged on every fourth document and on every document with nested positioned boxes
+		draw := i%4 == 0 || doc.Features["positioned-nest"]
 		ntok := len(doc.FlowOf)
 		LimitPages(8*(2*ntok+10) + 40)
 		o := render.Guard(8*time.Second, func() {
@@ -551,6 +625,9 @@ func generalCase(m *mp.Model, doc *General, pages []*bo.PageBox, rec *render.Rec
 		}
 		if ((doc.Footnotes || doc.PagesCount) && reDigits.MatchString(w)) || (doc.PagesCount && rePageOf.MatchString(w)) {
 			continue // footnote calls / markers ("1", "1."), the margin box "2/5"
+		}
+		if doc.BigSpan && len(w) <= 2 {
+			continue // the letters of the tall span
 		}
 		remnant := false
 		for t := range doc.FFFirstTok {
@@ -654,6 +731,10 @@ func generalCase(m *mp.Model, doc *General, pages []*bo.PageBox, rec *render.Rec
 		}
 		switch f.kind {
 		case flowFloat:
+			if f.tag != "" {
+				add(f.tag, fmt.Sprintf("float %s (%d fragments laid out): text %s %v", f.id, frags[f.id], v, names))
+				break
+			}
 			// history predicate: the float was split (>= 2 fragments generated by the float element, or
 			// part of its text is on no page although the float was laid out)
 			if f.inLine && frags[f.id] < 2 {
